@@ -979,6 +979,12 @@ impl<Writer: Write> Muxer<Writer> {
 
     /// Simple video encoding method.
     pub fn encode_video(&mut self, data: &[u8], duration_ms: u32) -> Result<(), MuxerError> {
+        // Reject empty frames here: keyframe detection requires data (INV-100)
+        if data.is_empty() {
+            return Err(MuxerError::EmptyVideoFrame {
+                frame_index: self.video_frame_count,
+            });
+        }
         let pts = self.current_video_pts;
         let is_keyframe = self.is_keyframe(data);
         self.write_video(pts, data, is_keyframe)?;
